@@ -379,6 +379,17 @@ func body(c *vk.Ctx) {
 	}
 	wg.Wait()
 	c.Bound("A4_continue_after_refusal_cases", a4)
+	// ---- A5: parts of a genuine change re-used in a second raw change -----------------------------------------
+	// the decoder works on one scratch message per tree: a raw change that leaves a field out must not inherit it
+	// from the change decoded before it. Forged = only the signature / only the payload of the genuine change that
+	// precedes it (id = hash of the forged bytes), delivered in the same batch, in the next call, and alone.
+	for _, part := range []string{"signature-only", "payload-only", "empty"} {
+		for _, delivery := range []string{"same-batch", "next-call", "alone"} {
+			part, delivery := part, delivery
+			run(func() { reuseCase(c, f, part, delivery) })
+		}
+	}
+	wg.Wait()
 	// ---- A2 -------------------------------------------------------------------------------------------
 	vals := vk.Pick(c, 6, 255)
 	c.Bound("A2_byte_values_per_offset", vals)
@@ -643,6 +654,67 @@ func continueCase(c *vk.Ctx, f *fixture, cGreater bool, badParent, au, cont stri
 	}
 	for _, fd := range w.judgeState(nil) {
 		viol(c, fd.key, "A4 "+label+": "+fd.what, rep)
+	}
+}
+
+// reuseCase: see A5 in body.
+func reuseCase(c *vk.Ctx, f *fixture, part, delivery string) {
+	label := part + " " + delivery
+	rep := acase{"A5", label}
+	w := f.newWorld()
+	last := f.recs[len(f.recs)-1]
+	g := w.build(f.sim.Acc("O"), last, []string{f.root.Id}, f.root.Id, "genuine", 1700000100)
+	raw := &treechangeproto.RawTreeChange{}
+	if err := raw.UnmarshalVT(g.RawChange); err != nil {
+		c.Broken("A5: %v", err)
+		return
+	}
+	forged := &treechangeproto.RawTreeChange{}
+	switch part {
+	case "signature-only":
+		forged.Signature = raw.Signature
+	case "payload-only":
+		forged.Payload = raw.Payload
+	}
+	fb, _ := forged.MarshalVT()
+	fid, err := cidutil.NewCidFromBytes(fb)
+	if err != nil {
+		c.Broken("A5: %v", err)
+		return
+	}
+	fr := &treechangeproto.RawTreeChangeWithId{RawChange: fb, Id: fid}
+	c.Count("evaluations", 1)
+	c.Count("executions", 1)
+	c.Distinct("distinct", "A5|"+label)
+	var addErr error
+	panicked, what := vk.Recover(func() {
+		switch delivery {
+		case "same-batch":
+			_, addErr = w.add([]string{fr.Id}, g, fr)
+		case "next-call":
+			if _, err := w.add([]string{g.Id}, g); err != nil {
+				addErr = fmt.Errorf("genuine change rejected: %w", err)
+				return
+			}
+			_, addErr = w.add([]string{fr.Id}, fr)
+		default:
+			_, addErr = w.add([]string{fr.Id}, fr)
+		}
+	})
+	if panicked {
+		viol(c, "panic:"+vk.PanicSite(what), "A5 "+label+": "+what, rep)
+		return
+	}
+	if has, _ := w.st.Has(ctx, fr.Id); has {
+		viol(c, "forged-change-stored:"+part, fmt.Sprintf("A5 %s: a raw change made of a genuine change's %s alone was stored (AddRawChanges: %v)", label, part, addErr), rep)
+	}
+	for _, h := range w.heads() {
+		if h == fr.Id {
+			viol(c, "forged-change-attached:"+part, fmt.Sprintf("A5 %s: a raw change made of a genuine change's %s alone became a head", label, part), rep)
+		}
+	}
+	for _, fd := range w.judgeState(nil) {
+		viol(c, fd.key, "A5 "+label+": "+fd.what, rep)
 	}
 }
 
